@@ -782,4 +782,6 @@ def run(chk):
     # the worker reaches files and the filesystem through `&mut F` / `Box<F>` wrappers: they pass every method on
     common.wrapper_family_rule(chk, P, "C11", "emit_file::File", 2)
     common.wrapper_family_rule(chk, P, "C11", "emit_file::Filesystem", 1)
+    from . import shapes
+    shapes.non_members_rejected(chk, P, "C11.R10:non-members-rejected")
     return chk
